@@ -937,6 +937,21 @@ func runC10(w *World, r *Report) {
 		}
 	}
 
+	r.Rule("C10.one-reporter-per-unit", "a unit's error is reported by the wrapper that reported its start (runWithCallbacks, which fires OnError for a returned error and for a panic before it re-panics) and by the graph's own run; nothing else in package compose calls the error aspect (the wrappers receive it as a value) — an executor that 'also tells the handlers about the crash' gives a panicking node start, error, error", 1)
+	{
+		oe := w.Fn("compose", "onError")
+		n := 0
+		for _, c := range w.staticCallers(oe) {
+			top := topFunc(c.Parent())
+			nm := origin(top).Name()
+			n++
+			r.Check(nm == "runWithCallbacks" || nm == "onGraphError", "C10.one-reporter-per-unit", fmt.Sprintf("onError called from %s", w.fname(origin(top))), c.Pos(), "the wrapper that reported the start / the graph's run", "a second reporter: runWithCallbacks (and a self-reporting component) already report a panic to the handlers and re-panic, so a node execution that panics gets OnStart, OnError, OnError — two ends for one start, for run-wide, designated and global handlers alike")
+		}
+		if n < 1 {
+			undecidedf("C10.one-reporter-per-unit: no caller of onError found")
+		}
+	}
+
 	r.Rule("C10.timing-checker-optional", "TimingChecker is an optional interface: wherever a handler is asked through it, a handler that does not implement it is treated like one that answered 'needed' — the not-ok edge of the assertion and the true edge of Needed lead to the same place (the dispatch point of internal/callbacks and the handler helper of utils/callbacks must agree, or a plain callbacks.Handler behind the helper is never called)", 2)
 	{
 		n := 0
